@@ -3,3 +3,5 @@ import Zstd.Props.C14
 import Zstd.Spec.Frame
 import Zstd.Model.FrameDecoder
 import Zstd.Props.C17
+import Zstd.Props.C07
+import Zstd.Props.C09
